@@ -1355,6 +1355,10 @@ func TrickyShapes() []*Shape {
 				p("c", &Shape{Kind: KFloat}), p("d", &Shape{Kind: KBool})}}),
 		// a struct-mapped object that refers to itself through a pointer field (Next *P18)
 		scope("Self", &Shape{Kind: KObject, ID: "Self", Struct: "P18", Props: []*Prop{{Name: "v", T: &Shape{Kind: KInt}, Required: true}, p("next", ref("Self"))}}),
+		// a holder that keeps a self-referential node by value, under the property ID the node uses for its own
+		// (pointer) self-reference
+		scope("Holder20", &Shape{Kind: KObject, ID: "Holder20", Struct: "P20", Props: []*Prop{p("next", ref("Node18"))}},
+			&Shape{Kind: KObject, ID: "Node18", Struct: "P18", Props: []*Prop{{Name: "v", T: &Shape{Kind: KInt}, Default: jsonText(int64(3))}, p("next", ref("Node18"))}}),
 		// a single-property object that reaches itself through a list: nested lists are shorthand at every level
 		scope("L", obj("L", p("e", &Shape{Kind: KList, Items: ref("L")}))),
 		// a finite chain of single-property objects that passes through two DIFFERENT objects with the same ID (the
